@@ -65,11 +65,11 @@ type normalizer struct {
 	closureStmt  map[types.Object]ast.Stmt // the declaring statement, if it is a plain member of a statement list
 	closureCalls map[types.Object]int      // number of call sites of the closure in its function
 	keepClosures bool                      // fall-back mode: never remove a literal
-	src     map[string][]byte
-	n       int
-	busy    map[types.Object]bool
-	extra   map[string]bool // pinned functions that are inlined as well while a flat view is generated
-	Log     []string
+	src          map[string][]byte
+	n            int
+	busy         map[types.Object]bool
+	extra        map[string]bool // pinned functions that are inlined as well while a flat view is generated
+	Log          []string
 	// [std] normalize_std.go: predicate literals that were expanded in place (their text is gone from the file)
 	consumed map[*ast.FuncLit]bool
 	// function-typed parameters of a helper being inlined whose argument is a method value `x.m` of a stable
